@@ -118,7 +118,7 @@ def gen_target(rng, kind: str) -> dict:
         "name": name + suffix,
         "missing_parents": rng.choice([0, 0, 0, 1, 2, 3]),
         "style": rng.choice(["str", "Path", "tilde", "relative"]),
-        "pre": rng.choice(["absent", "absent", "file", "file", "earlier"]),
+        "pre": rng.choice(["absent", "absent", "file", "file", "earlier", "empty"]),
     }
     if t["missing_parents"]:
         t["pre"] = "absent"
@@ -592,10 +592,11 @@ def _exec_faults(plan, sb, rtflite, conv_mod, arg) -> dict:
         targ_arg, targ_abs = resolve_target(sb, op["target"], op.get("dir_id", op.get("id", f"x{i}")))
         ev["target_key"] = sb.key_of(targ_abs)
         pre = op["target"]["pre"]
-        if pre == "file" and not os.path.lexists(targ_abs):
+        if pre in ("file", "empty") and not os.path.lexists(targ_abs):
             os.makedirs(os.path.dirname(targ_abs), exist_ok=True)
             with open(targ_abs, "wb") as fh:
-                fh.write(f"PRE-EXISTING {i} {op['target']['name']}".encode())
+                # "empty": a zero-byte placeholder (mkstemp, touch) is a pre-existing file like any other
+                fh.write(b"" if pre == "empty" else f"PRE-EXISTING {i} {op['target']['name']}".encode())
         if pre == "near_copy" and not os.path.lexists(targ_abs):
             try:
                 text = orig_encode(doc)
@@ -1297,6 +1298,7 @@ def matrix_jobs(root: int, docs: list) -> list:
                  for d in DIE_MODES[1:]]
               + [{"kind": "M", "mode": m} for m in DUCK_BAD])
     states = [{"pre": "absent", "missing_parents": 0}, {"pre": "file", "missing_parents": 0},
+              {"pre": "empty", "missing_parents": 0},
               {"pre": "absent", "missing_parents": 2}, {"pre": "earlier", "missing_parents": 0}]
     r = docs[0]
     for kind in ("write_docx", "write_html", "write_pdf"):
